@@ -104,6 +104,16 @@ fn gen_pair(rng: &mut Rng) -> Pair {
                 1 => ", ...",
                 _ => ", ..., fq8 BOOLEAN",
             };
+            if pos == n && marker == 0 && hext.is_empty() && rng.chance(1, 3) {
+                // COMPONENTS OF a type that itself ends in COMPONENTS OF (both in last position, where the single level works)
+                let helpers2 = format!("{helpers}@HTt ::= SEQUENCE {{ gq1 NULL, COMPONENTS OF @HTs }}\n");
+                let mut s2 = own.clone();
+                s2.push("COMPONENTS OF @HTt".into());
+                let mut e2 = own.clone();
+                e2.push("gq1 NULL".into());
+                e2.extend(hroot.iter().cloned());
+                return Pair { family: "components-of", class: "SEQUENCE,nested-components-of,position=last".into(), helpers: helpers2, sugared: format!("Tq1 ::= SEQUENCE {{ {} }}\n", s2.join(", ")), expanded: format!("Tq1 ::= SEQUENCE {{ {} }}\n", e2.join(", ")) };
+            }
             let kind = if rng.chance(1, 4) { "SET" } else { "SEQUENCE" };
             let where_ = if n == 0 { "only" } else if pos == 0 { "first" } else if pos == n { "last" } else { "middle" };
             Pair {
@@ -120,10 +130,18 @@ fn gen_pair(rng: &mut Rng) -> Pair {
             let targ = *rng.pick(&["BOOLEAN", "INTEGER", "OCTET STRING", "IA5String"]);
             let narg = rng.range(1, 300);
             let targ2 = *rng.pick(&["OCTET STRING", "BOOLEAN"]);
+            // variants: a CHOICE body instantiated under a tag (the tag must come out explicit, X.680 31.2.7 c), and a DEFAULT
+            // on the component bounded by the value parameter
+            // at most one variant per pair, so that a (known) defect of one variant keeps one signature
+            let variant = rng.below(4);
+            let choice_body = np == 1 && rng.chance(1, 3);
+            let with_default = np == 2 && variant == 1;
+            let dflt = if with_default { " DEFAULT 1" } else { "" };
             let body = |a: &str| -> (String, String, String, String) {
                 match np {
+                    1 if choice_body => ("{T}".to_string(), "CHOICE { aq1 T, aq2 NULL }".to_string(), format!("CHOICE {{ aq1 {a}, aq2 NULL }}"), format!("{{{a}}}")),
                     1 => ("{T}".to_string(), "SEQUENCE { aq1 T, aq2 BOOLEAN OPTIONAL }".to_string(), format!("SEQUENCE {{ aq1 {a}, aq2 BOOLEAN OPTIONAL }}"), format!("{{{a}}}")),
-                    2 => ("{T, INTEGER:n}".to_string(), "SEQUENCE { aq1 T, aq2 INTEGER (0..n) }".to_string(), format!("SEQUENCE {{ aq1 {a}, aq2 INTEGER (0..{narg}) }}"), format!("{{{a}, {narg}}}")),
+                    2 => ("{T, INTEGER:n}".to_string(), format!("SEQUENCE {{ aq1 T, aq2 INTEGER (0..n){dflt} }}"), format!("SEQUENCE {{ aq1 {a}, aq2 INTEGER (0..{narg}){dflt} }}"), format!("{{{a}, {narg}}}")),
                     _ => (
                         "{T, INTEGER:n, U}".to_string(),
                         "SEQUENCE { aq1 T, aq2 INTEGER (0..n), aq3 SEQUENCE OF U }".to_string(),
@@ -135,18 +153,33 @@ fn gen_pair(rng: &mut Rng) -> Pair {
             let (params, body_s, body_e, args) = body(targ);
             // a module-level value spelled like the dummy reference must not be picked instead of the actual parameter
             // (X.683 8.3: the dummy reference hides it inside the parameterized assignment)
-            let global_homonym = np >= 2 && rng.chance(1, 2);
-            let helpers = format!("@HTp{params} ::= {body_s}\n{}", if global_homonym { "n INTEGER ::= 977\n" } else { "" });
+            let global_homonym = np >= 2 && variant == 2;
+            // likewise a module-level *type* spelled like the dummy type reference
+            let global_type_homonym = !choice_body && variant == 3;
+            let helpers = format!("@HTp{params} ::= {body_s}\n{}{}", if global_homonym { "n INTEGER ::= 977\n" } else { "" }, if global_type_homonym { "T ::= OCTET STRING (SIZE (7))\n" } else { "" });
             let inst = 1 + rng.below(3);
-            let mut sug = format!("Tq1 ::= @HTp{args}\n");
-            let mut exp = format!("Tq1 ::= {body_e}\n");
+            let tag = if choice_body { "[3] " } else { "" };
+            let mut sug = format!("Tq1 ::= {tag}@HTp{args}\n");
+            let mut exp = format!("Tq1 ::= {tag}{body_e}\n");
             // further instantiations with another argument must not disturb the first
             for k in 2..=inst {
                 let (_, _, be, ar) = body(if targ == "BOOLEAN" { "IA5String" } else { "BOOLEAN" });
                 sug.push_str(&format!("Tq{k} ::= @HTp{ar}\n"));
                 exp.push_str(&format!("Tq{k} ::= {be}\n"));
             }
-            Pair { family: "parameterized-type", class: format!("params={np},instantiations={inst}{}", if global_homonym { ",global-value-named-like-dummy" } else { "" }), helpers, sugared: sug, expanded: exp }
+            Pair {
+                family: "parameterized-type",
+                class: format!(
+                    "params={np},instantiations={inst}{}{}{}{}",
+                    if global_homonym { ",global-value-named-like-dummy" } else { "" },
+                    if global_type_homonym { ",global-type-named-like-dummy" } else { "" },
+                    if choice_body { ",tagged-choice-instance" } else { "" },
+                    if with_default { ",default-on-parameter-bounded-component" } else { "" }
+                ),
+                helpers,
+                sugared: sug,
+                expanded: exp,
+            }
         }
         // ---- selection type
         9 | 10 => {
@@ -236,7 +269,13 @@ fn check(seed: u64, idx: u64, rep: &mut Report) {
             let kind = if s.0 != e.0 { format!("status:{}", s.0.split('/').next().unwrap_or("")) } else { "bindings-differ".to_string() };
             let first = s.1.iter().zip(e.1.iter()).find(|(a, b)| a != b).map(|(a, b)| format!("`{}` vs `{}`", one_line(a, 150), one_line(b, 150))).unwrap_or_else(|| format!("{} vs {} items; {}", s.1.len(), e.1.len(), one_line(&s.2, 120)));
             // where the order of definitions is part of the (known) defect it is part of the signature
-            let order = if p.class.contains("global-value-named-like-dummy") { if *h == "Aq" { ",template-sorts-before-instances" } else { ",template-sorts-after-instances" } } else { "" };
+            let order = if p.class.contains("global-value-named-like-dummy") {
+                if *h == "Aq" { ",template-sorts-before-instances" } else { ",template-sorts-after-instances" }
+            } else if p.class.contains("nested-components-of") {
+                if *h == "Aq" { ",referenced-types-sort-before" } else { ",referenced-types-sort-after" }
+            } else {
+                ""
+            };
             rep.violations.push(Violation {
                 sig: format!("c09|{}|{kind}|{}{order}", p.family, p.class),
                 what: format!("sugared ({}) and expanded forms differ (helper names `{h}*`): {first}", one_line(p.sugared.trim(), 120)),
@@ -247,7 +286,7 @@ fn check(seed: u64, idx: u64, rep: &mut Report) {
     // independence of helper-name spelling / definition order
     if results[0].1 .0 != results[1].1 .0 || results[0].1 .1 != results[1].1 .1 {
         rep.violations.push(Violation {
-            sig: format!("c09|{}|depends-on-helper-name-order{}", p.family, if p.class.contains("global-value-named-like-dummy") { "|global-value-named-like-dummy" } else { "" }),
+            sig: format!("c09|{}|depends-on-helper-name-order{}", p.family, if p.class.contains("global-value-named-like-dummy") { "|global-value-named-like-dummy" } else if p.class.contains("nested-components-of") { "|nested-components-of" } else { "" }),
             what: format!("the sugared form compiles differently when the referenced definition sorts before (`Aq*`) vs after (`Zq*`) `Tq1`: {}", one_line(p.sugared.trim(), 120)),
             replay: json!({"a": render(&p.sugared, "Aq"), "z": render(&p.sugared, "Zq"), "seed": seed, "idx": idx}),
         });
